@@ -70,11 +70,12 @@ Reachable(g) == {t \in Tables : g \in reach[t]}
 Mark(sh, par, S) == LET M == IF Impl = "noanc" THEN S ELSE AncAll(par, S)
                     IN  [t \in DOMAIN sh |-> sh[t] \/ t \in M]
 
-(* table 1 = the process root (shared by init()), table 2 = the program's     *)
-(* table (run.go: NewSymbolTable(name).Shared(true)), table 3 = main's frame  *)
-Init == /\ parent = (1 :> 0) @@ (2 :> 1) @@ (3 :> 2)
-        /\ shared = (1 :> TRUE) @@ (2 :> TRUE) @@ (3 :> FALSE)
-        /\ reach = (1 :> {Main}) @@ (2 :> {Main}) @@ (3 :> {Main})
+(* table 1 = the program's table (run.go: NewSymbolTable(name).Shared(true);  *)
+(* its parent, the process root, is shared by init() and adds nothing),       *)
+(* table 2 = main's frame                                                     *)
+Init == /\ parent = (1 :> 0) @@ (2 :> 1)
+        /\ shared = (1 :> TRUE) @@ (2 :> FALSE)
+        /\ reach = (1 :> {Main}) @@ (2 :> {Main})
         /\ acc = (Main :> NoAcc)
         /\ live = {Main} /\ born = {Main} /\ started = {Main}
         /\ pend = (Main :> {})
@@ -95,6 +96,7 @@ CanLock(t, w) == IF w THEN Holders(t) = {} ELSE \A h \in Holders(t) : ~acc[h].w
 
 Begin(g, t, w) ==
     /\ Idle(g) /\ t \in Reachable(g)
+    /\ Cardinality({h \in live : acc[h].on}) <= 1      \* I2 is about pairs: two accesses in progress are enough
     /\ shared[t] => CanLock(t, w)
     /\ acc' = [acc EXCEPT ![g] = [on |-> TRUE, t |-> t, w |-> w, l |-> shared[t]]]
     /\ UNCHANGED <<parent, shared, reach, live, born, pend, started>>
